@@ -183,7 +183,16 @@ pub(super) mod udp {
         type Error = anyhow::Error;
 
         fn decode(&mut self, src: &mut BytesMut) -> Result<Option<Self::Item>, Self::Error> {
-            if !src.is_empty() {
+            // address length(2) CRLF payload: wait until the whole datagram has arrived
+            if src.remaining() >= 2 {
+                let header_len = address::try_decode_at(src, 0)? + 2 + trojan::CR_LF.len();
+                if src.remaining() < header_len {
+                    return Ok(None);
+                }
+                let len = u16::from_be_bytes([src[header_len - 4], src[header_len - 3]]) as usize;
+                if src.remaining() < header_len + len {
+                    return Ok(None);
+                }
                 let addr = address::decode(src)?;
                 let len = src.get_u16();
                 src.advance(trojan::CR_LF.len());
